@@ -205,12 +205,12 @@ def check(ctx):
                f"{unit_rpe}", key=f"C02.6:{member}:unit")
 
     r = _pipeline(ctx, "evo.main_rpe.rpe", "RPE", "C02")
-    _rpe_core(ctx, r)
-    _run_wiring(ctx, "evo.main_rpe", "rpe", "C02")
-    _delta_unit(ctx)
+    ctx.section(_rpe_core, ctx, r)
+    ctx.section(_run_wiring, ctx, "evo.main_rpe", "rpe", "C02")
+    ctx.section(_delta_unit, ctx)
     from .c01 import _pipeline_views
-    _pipeline_views(ctx, "C02.8")
-    _pipeline_inputs(ctx, "C02.9")
+    ctx.section(_pipeline_views, ctx, "C02.8")
+    ctx.section(_pipeline_inputs, ctx, "C02.9")
 
 
 def coindexing(ctx, res, member, err, dids, IDPAIRS, rule):
